@@ -73,3 +73,16 @@ impl<K, V> LinkedHashMap<K, V> {
         ensures r.remaining() == refs(self.vals()), r.obeys_prophetic_iter_laws(), r.decrease() is Some { unimplemented!() }
 }
 opaque_types!(InputsMap, BootstrapSet);
+
+// Plutus language of a script source (C09)
+clone_eq!(Language);
+impl PlutusScript {
+    pub uninterp spec fn lang(&self) -> Language;
+    #[verifier::external_body] pub fn language_version(&self) -> (r: Language) ensures r == self.lang() { unimplemented!() }
+}
+impl vstd::std_specs::cmp::OrdSpecImpl for Language { uninterp spec fn obeys_cmp_spec() -> bool; uninterp spec fn cmp_spec(&self, o: &Language) -> core::cmp::Ordering; }
+impl vstd::std_specs::cmp::PartialOrdSpecImpl for Language { uninterp spec fn obeys_partial_cmp_spec() -> bool; uninterp spec fn partial_cmp_spec(&self, o: &Language) -> Option<core::cmp::Ordering>; }
+impl PartialEq for Language { #[verifier::external_body] fn eq(&self, o: &Language) -> bool { unimplemented!() } }
+impl Eq for Language {}
+impl PartialOrd for Language { #[verifier::external_body] fn partial_cmp(&self, o: &Language) -> Option<core::cmp::Ordering> { unimplemented!() } }
+impl Ord for Language { #[verifier::external_body] fn cmp(&self, o: &Language) -> core::cmp::Ordering { unimplemented!() } }
